@@ -209,6 +209,11 @@ def gen_env(rng, custom=None):
     nodes["mat"] = ("other", None, None, None)
     lines.append("name str = 'Will Smith'")
     nodes["name"] = ("str", "Will Smith", None, None)
+    if rng.random() < 0.6:
+        # a text VALUE that itself looks like template source: a hole is replaced by the value as format() gives it,
+        # the inserted text is not scanned again (not in `nodes`: only the template stream uses it)
+        lines.append("hint str = '%s'" % rng.choice(["use {{?name}} and {{?i1}:05d}", "{{?s}}", "see {{?nosuch}}!", "a {{?t}} {b} {{?hint}}",
+                                                     "{{?v}[1]:.2f}"]))
     text = "\n".join(lines)
     with DIP() as d:
         d.add_string(text)
@@ -894,6 +899,8 @@ def gen_tpl(rng, E):
         else:
             cands = [(n, kind) for n, (kind, val, unit, d) in E.nodes.items()]
             n, kind = rng.choice(cands)
+            if "\nhint str = " in E.text and rng.random() < 0.2:
+                n, kind = "hint", "str"
             sl, fm = None, None
             if n == "v":
                 if rng.random() < 0.7:
